@@ -159,6 +159,14 @@ func (d *D) Base(idx int, ctx *core.Ctx) *core.Scenario {
 			sc.Kind += "+typos"
 		}
 	}
+	if idx >= len(targeted) && idx%9 == 4 {
+		// values that outlive the construct that made them (literals evaluated repeatedly, repetition
+		// copies, variadic arrays kept after the call): what they show later must not depend on the
+		// allocator or the collector
+		sc.Program, sc.Events = work.MapLife(r)
+		sc.Inputs = nil
+		sc.Kind = "lifecycle"
+	}
 	sc.NoTestSummary = false
 	return sc
 }
@@ -479,7 +487,7 @@ func (d *D) RunItem(idx int, ctx *core.Ctx) {
 			}
 		}
 	}
-	if c.native > 0 && prng.Mix(uint64(idx), 0x5eed)%uint64(c.native) == 0 && !found && os.Getenv("VERIF_NO_CONFORM") == "" {
+	if c.native > 0 && (prng.Mix(uint64(idx), 0x5eed)%uint64(c.native) == 0 || sc.Kind == "lifecycle" && idx%2 == 0) && !found && os.Getenv("VERIF_NO_CONFORM") == "" {
 		d.native(sc, ctx, obs0, c.budget)
 	}
 	if len(ctx.St.Samples) < 3 && len(multi) > 0 && len(sc.Program) < 500 {
